@@ -79,6 +79,7 @@ class Interp:
         self.solver_time = 0.0
         self.ghost = {}
         self.call_stack = []
+        self.branch_budget = None  # frontier pass: number of branching decisions still allowed on this path
 
     def fresh_int(self, hint="v"):
         return z3.Int(f"{hint}!{next(self._fresh)}")
@@ -160,6 +161,10 @@ class Interp:
                 raise PathAbort()
         else:
             choice = feas[0]
+        if self.branch_budget is not None and len(feas) > 1:
+            if self.branch_budget <= 0:
+                raise FrontierReached()
+            self.branch_budget -= 1
         self.trace.append((choice, feas))
         self.pos += 1
         c = conds[choice]
